@@ -60,7 +60,9 @@ func VH_C09_batch() {
 	m := &bMon{}
 	bConfig(m)
 	m.stop = vNondet[bool]("stop")
-	m.errForm = vChoice("errForm", 4) // one form for all failing items of the run; 3 = plain errors + echoing fallback
+	// one error form for all failing items of the run (3 = plain errors + echoing fallback); the
+	// all-schedules instance with two workers runs with plain errors only (param forms=1)
+	m.errForm = vChoice("errForm", vParam("forms", 4))
 	b := bNode(m, c09Exec(m))
 	if m.errForm == 3 {
 		// a custom fallback that gives up like the default one but hands its input back next to the
